@@ -65,8 +65,15 @@ def run(ctx):
                         "is Consistent and follows Protocol, yet B's read and the destruction are unordered by happens-before.")
             ctx.violation("miri", "\n".join(body), True)
         else:
-            body.append("search: %d Miri runs over %s found no race / use-after-free" % (
-                ctx.coverage.get("search_runs", len(res)), ",".join(sorted({r["program"] for r in res}))))
+            nat = miri.run_native(ctx, miri.programs_for("C02") + miri.programs_for("C09"))
+            nbad = miri.failing(nat)
+            if nbad:
+                r = nbad[0]
+                body += ["failing input: litmus program `%s` run natively (%d rounds, real threads):" % (r["program"], r.get("rounds", 0)), "  replay: " + r["cmd"], r["report"]]
+                ctx.violation("native", "\n".join(body), True)
+                return
+            body.append("search: %d Miri runs over %s and %d native stress runs found no race / use-after-free" % (
+                ctx.coverage.get("search_runs", len(res)), ",".join(sorted({r["program"] for r in res})), len(nat)))
             body.append("Lean output:\n" + out[-3000:])
             ctx.violation("theorem", "\n".join(body), False)
 
